@@ -29,6 +29,13 @@ def cases(tier, rng):
         t = rand_tx(rng, nin=2, nout=2, segwit=True, scripts=False)
         t["wits"] = [[rand_data(rng, 72), rand_data(rng, isz)], []]
         yield {"k": "tx", "tx": t}
+    # input / output counts around the CompactSize boundary in segwit (and legacy) transactions
+    for nin, nout in ((252, 1), (253, 1), (1, 252), (1, 253), (300, 2), (2, 300), (253, 253)):
+        for sw in (True, True, False):
+            t = rand_tx(rng, nin=nin, nout=nout, segwit=sw, scripts=False)
+            if sw:
+                t["wits"] = [rng.choice([[], [rand_data(rng, 72), rand_data(rng, 33)], [rand_data(rng, 64)]]) for _ in range(nin)]
+            yield {"k": "tx", "tx": t}
     # unsigned segwit transaction: flag set, no stacks yet; and more/fewer stacks than inputs
     for nin in (1, 2, 3):
         t = rand_tx(rng, nin=nin, segwit=True); t["wits"] = []
